@@ -36,6 +36,19 @@
 //! before directive arguments (space, tab: MUST / if-accepted; U+00A0, U+3000, U+2003: DON'T-CARE, doc and tree
 //! disagree). E4: directive before / after first use, in an included file, used from an included file, repeated.
 //!
+//! Part F (amounts handed to a query): an amount written with an alias and given to Ledger::eval / `okane primitive eval`
+//! is an amount in the canonical commodity; `-X <alias>`, if honoured, gives the `-X <canonical>` report.
+//!
+//! Part G (the amount of a `format` line). `format <amount>` carries an amount like any other; written below the
+//! `alias` line, its commodity spelled by the alias must mean the same as the canonical name: the declared precision
+//! (which transactions balance, how ranged / converted balances are rounded) does not depend on the spelling. All
+//! 3 aliases (symbol, word, non-ASCII) x 7 placements of the format line relative to the alias line (same block
+//! after / between / above the alias lines, a second `commodity` block directly / after a first use, format or
+//! aliases in an included file) x 5 format styles (precision 0..3) x 2 bodies (a transaction that balances only at
+//! the declared precision; exact transactions with rounded ranged and converted balances) x 2 spellings of the body;
+//! reference = the canonical name in the format line, pinned to hand-checked values. A format amount without
+//! commodity, with a foreign / undeclared commodity or with an alias declared BELOW the line is executed, not judged.
+//!
 //! Part B (conflicts, explicit-state search over histories). Names {p,q,r}, two name spaces (accounts,
 //! commodities). Actions: use a name in a posting, `account c`, `account c` + `alias a` (incl. a = c),
 //! `account c` + `alias a` + `alias b` (same for `commodity`). Reference state K = alias table
@@ -59,12 +72,13 @@ use crate::q::{qmap_add, qmap_show, QMap, Q};
 pub const DEF: CheckDef = CheckDef {
     id: "C12",
     run,
-    technique: "part A: stateless exhaustive substitution (every assignment canonical/alias1/alias2 to every mention site of three base ledgers, metamorphic comparison with the all-canonical run through the API and the in-process CLI); part C: the same exhaustive substitution over the mention sites of a price-database file given with --price-db; part D: absolute completeness of the per-account register under every map-iteration order with <= d deviations (order-controllable map behind --cfg okane_verif); part E: exhaustive enumeration of name value classes (every printable ASCII punctuation character, digits, blanks, non-ASCII, all positions and ordered pairs), of blanks around directive arguments and of directive placements (incl. included files) against an absolute oracle; part B: explicit-state BFS over alias tables plus all raw action sequences up to a depth bound, each edge re-running the real book-keeping on the whole history and observing the resulting table through probe postings",
-    rule: "part A case = (base ledger, assignment of a declared name to each of its 10..15 mention sites); states = distinct substituted ledgers. Part C case = (base ledger L2/L3 in canonical or alias spelling, assignment of a declared name to each of the 9 resp. 7 mention sites of its price DB), all 2 592 resp. 648 assignments in both tiers. Part D case = (base ledger L1..L4, canonical form or one account site written as an alias), inside which all executions with <= 1 (thorough 2) non-default map orders are explored and every account's restricted register is compared with the unrestricted one. Part E case = (account|commodity, name from the shape x character tables, role alias|canonical) resp. (blank variant) resp. (placement, name); same in both tiers. Part B case = (reference-accepted history, next action) over names {p,q,r} x {accounts, commodities}; states = distinct alias tables (B1) resp. distinct histories (B2); transitions = cases executed on the real code. A case is MUST when the statement fixes the outcome: substituted ledger == canonical ledger in every report; alias-already-canonical (declared or merely used) and canonical-already-alias rejected with an error; every other first declaration / use accepted with all balances under the canonical name",
+    technique: "part A: stateless exhaustive substitution (every assignment canonical/alias1/alias2 to every mention site of three base ledgers, metamorphic comparison with the all-canonical run through the API and the in-process CLI); part C: the same exhaustive substitution over the mention sites of a price-database file given with --price-db; part D: absolute completeness of the per-account register under every map-iteration order with <= d deviations (order-controllable map behind --cfg okane_verif); part E: exhaustive enumeration of name value classes (every printable ASCII punctuation character, digits, blanks, non-ASCII, all positions and ordered pairs), of blanks around directive arguments and of directive placements (incl. included files) against an absolute oracle; part F: aliases in amounts given to Ledger::eval / `primitive eval` / `-X`; part G: exhaustive product alias x placement of the `format` line x format style x precision-dependent ledger body x spelling of the format amount, metamorphic comparison with the canonical spelling (pinned to hand-checked values) through the API and the in-process CLI; part B: explicit-state BFS over alias tables plus all raw action sequences up to a depth bound, each edge re-running the real book-keeping on the whole history and observing the resulting table through probe postings",
+    rule: "part A case = (base ledger, assignment of a declared name to each of its 10..15 mention sites); states = distinct substituted ledgers. Part C case = (base ledger L2/L3 in canonical or alias spelling, assignment of a declared name to each of the 9 resp. 7 mention sites of its price DB), all 2 592 resp. 648 assignments in both tiers. Part D case = (base ledger L1..L4, canonical form or one account site written as an alias), inside which all executions with <= 1 (thorough 2) non-default map orders are explored and every account's restricted register is compared with the unrestricted one. Part E case = (account|commodity, name from the shape x character tables, role alias|canonical) resp. (blank variant) resp. (placement, name); same in both tiers. Part G case = (placement of the format line, format style, ledger body, spelling of the body, commodity written in the format amount), 7 x 5 x 2 x 2 x 8 = 1 120 in both tiers; MUST when the commodity is the canonical name or an alias declared above the line. Part B case = (reference-accepted history, next action) over names {p,q,r} x {accounts, commodities}; states = distinct alias tables (B1) resp. distinct histories (B2); transitions = cases executed on the real code. A case is MUST when the statement fixes the outcome: substituted ledger == canonical ledger in every report; alias-already-canonical (declared or merely used) and canonical-already-alias rejected with an error; every other first declaration / use accepted with all balances under the canonical name",
     assumptions: &[
         "the all-canonical form of each base ledger is the reference of part A; its `balance` report is pinned to a hand-checked text so that a change hitting canonical and alias spellings alike is still reported",
         "DON'T-CARE: alias of itself (`account p` + `alias p`), alias re-pointed to another canonical; duplicate declarations (`account p` twice, identical alias twice) may be rejected, but if accepted must leave the table unchanged",
-        "aliases given as command-line arguments (`register FILE <alias>`, `-X <alias>`) and the commodity written inside a `format` line are outside the statement and not judged",
+        "aliases given as command-line arguments (`register FILE <alias>`, `-X <alias>`) are outside the statement: a refusal is not judged, a report that is produced must be the canonical one",
+        "the amount of a `format` line is an amount in the sense of the statement (syntax::CommodityDetail::Format(expr::Amount)): below the `alias` line its commodity may be spelled by the alias and must then mean the canonical name (part G); what a format amount WITHOUT commodity, with another / an undeclared commodity, or with an alias that is only declared further down means is not stated: executed, not judged; acceptance of a second `commodity` block for the same name is not required, the alias spelling must then behave like the canonical spelling",
         "part E judges a name only if doc/syntax.md allows it (account ::= no-sp (no-sp | ' ' no-sp)*, commodity = characters outside the documented exclusion set, no Unicode blank at either end) and a control ledger without declarations books a posting written with it under exactly that name (so `;`, a leading `*`/`!`/`(`/`[` etc. are DON'T-CARE)",
         "ASCII blanks after the `account`/`commodity` argument must be accepted (doc: sp*); after an `alias` argument the doc has no sp*, so acceptance is not required but if accepted the alias is the trimmed name; a trailing U+00A0/U+3000/U+2003 is DON'T-CARE (doc: part of the name; tree: trimmed)",
         "a `P` line of the price DB given with --price-db counts as a later mention of the commodity (the DB is read after the ledger, i.e. after every declaration); a DB naming only commodities the ledger never mentions is executed but not judged",
@@ -2046,6 +2060,426 @@ fn part_f(ctx: &mut Ctx, path: &Path) -> u64 {
     n
 }
 
+// ---------------------------------------------------------------------------------------------------------------
+// Part G — the amount of a `format` line
+// ---------------------------------------------------------------------------------------------------------------
+//
+// `format <amount>` inside a `commodity` block carries an amount (syntax::CommodityDetail::Format(expr::Amount), parsed
+// by the same `expr::amount` as a posting amount). "After [a] `commodity` declaration, writing any of its aliases in
+// later ... amounts ... gives the same balance and register reports as writing the canonical name": when the format
+// amount stands BELOW the `alias` line, spelling its commodity by that alias must be the same thing as spelling the
+// canonical name — the declared precision (and with it: which transactions balance, how ranged / converted balances
+// are rounded) must not depend on the spelling.
+//
+// Enumerated completely in both tiers: 3 aliases (symbol, word, non-ASCII) x 7 placements of the format line
+// relative to the alias line x 5 format styles (precision 0..3, with / without thousands separator) x 2 ledger bodies
+// (a transaction that balances only after rounding to the declared precision; exact transactions whose ranged and
+// converted balances are rounded) x 2 spellings of the body (canonical names / through aliases) x 8 spellings of the
+// commodity in the format amount (canonical = reference, the 3 aliases = MUST when declared above the line,
+// and not judged: no commodity, another declared commodity, an alias of another commodity, an undeclared commodity,
+// an alias declared BELOW the format line).
+
+const G_CANON: &str = "USD";
+const G_ALIASES: [&str; 3] = ["$", "dollar", "\u{7c73}\u{30c9}\u{30eb}"];
+/// (format number, precision), simplest first
+const G_STYLES: [(&str, u32); 5] = [("1,000.00", 2), ("1000.00", 2), ("1,000", 0), ("0.0", 1), ("1,000.000", 3)];
+/// (label, must the canonical form be accepted?)  `false`: a repeated `commodity` block, acceptance is not required
+/// by the statement (as in parts B and E); if the canonical spelling is accepted the alias spellings are judged.
+const G_PLACEMENTS: [(&str, bool); 7] = [
+    ("same-block-after-all-alias-lines", true),
+    ("same-block-between-alias-lines-own-alias-above", true),
+    ("same-block-above-its-own-alias-line", true),
+    ("second-commodity-block", false),
+    ("second-commodity-block-after-first-use", false),
+    ("format-in-included-file", false),
+    ("aliases-in-included-file", false),
+];
+const G_BODIES: [&str; 2] = ["balances-only-at-declared-precision", "exact-transactions-rounded-reports"];
+const G_LEDGER_SPELLINGS: [&str; 2] = ["ledger-in-canonical-names", "ledger-through-aliases"];
+const G_COMMANDS: [(&str, &[&str]); 4] = [
+    ("balance", &["balance", "{}"]),
+    ("register", &["register", "{}"]),
+    ("balance-range", &["balance", "--start", "2024-01-01", "--now", "2024-02-01", "{}"]),
+    ("balance-X-USD", &["balance", "-X", "USD", "--now", "2024-02-01", "{}"]),
+];
+
+#[derive(Clone, Copy, PartialEq, Eq, Debug)]
+enum GSpell {
+    Canonical,
+    Alias(usize),
+    NoCommodity,
+    OtherCanonical,
+    OtherAlias,
+    Undeclared,
+}
+
+const G_SPELLINGS: [GSpell; 8] = [GSpell::Canonical, GSpell::Alias(0), GSpell::Alias(1), GSpell::Alias(2), GSpell::NoCommodity, GSpell::OtherCanonical, GSpell::OtherAlias, GSpell::Undeclared];
+
+impl GSpell {
+    fn text(self) -> &'static str {
+        match self {
+            GSpell::Canonical => G_CANON,
+            GSpell::Alias(i) => G_ALIASES[i],
+            GSpell::NoCommodity => "",
+            GSpell::OtherCanonical => "JPY",
+            GSpell::OtherAlias => "\u{a5}",
+            GSpell::Undeclared => "CHF",
+        }
+    }
+    fn label(self) -> &'static str {
+        match self {
+            GSpell::Canonical => "canonical-name",
+            GSpell::Alias(i) => g_alias_shape(G_ALIASES[i]),
+            GSpell::NoCommodity => "no-commodity",
+            GSpell::OtherCanonical => "another-declared-commodity",
+            GSpell::OtherAlias => "alias-of-another-commodity",
+            GSpell::Undeclared => "undeclared-commodity",
+        }
+    }
+}
+
+fn g_alias_shape(a: &str) -> &'static str {
+    if !a.is_ascii() {
+        "non-ascii-alias"
+    } else if a.chars().any(|c| c.is_alphanumeric()) {
+        "word-alias"
+    } else {
+        "symbol-alias"
+    }
+}
+
+#[derive(Clone, Copy, PartialEq, Eq, Debug)]
+struct GCase {
+    placement: usize,
+    style: usize,
+    body: usize,
+    lsp: usize,
+    spell: GSpell,
+}
+
+/// (root file, included file `fmt.ledger` if any)
+fn g_render(g: &GCase) -> (String, Option<String>) {
+    let (fmt_num, p) = G_STYLES[g.style];
+    let fmt_line = format!("  format {}{}{}\n", fmt_num, if g.spell.text().is_empty() { "" } else { " " }, g.spell.text());
+    let alias_line = |i: usize| format!("  alias {}\n", G_ALIASES[i]);
+    // the alias that matters for the order inside the block: the one written in the format line, else the first
+    let own = match g.spell {
+        GSpell::Alias(i) => i,
+        _ => 0,
+    };
+    let others: String = (0..3).filter(|i| *i != own).map(alias_line).collect();
+    let all: String = (0..3).map(alias_line).collect();
+    let other_decl = "commodity JPY\n  alias \u{a5}\n\n";
+    // names used by the transactions
+    let n = |i: usize| if g.lsp == 0 { G_CANON } else { [G_ALIASES[0], G_ALIASES[1], G_CANON, G_ALIASES[2]][i] };
+    let open = format!("2024/01/01 open\n  Assets:Bank  100 {}\n  Equity  -100 {}\n\n", n(0), n(2));
+    let zeros = "0".repeat(p as usize);
+    let body = if g.body == 0 {
+        let part = format!("1.{}1", zeros);
+        let total = if p == 0 { "-3".to_string() } else { format!("-3.{}", zeros) };
+        format!("2024/01/02 bill split three ways, the rest is below the declared precision\n  Expenses:A  {part} {}\n  Expenses:B  {part} {}\n  Expenses:C  {part} {}\n  Assets:Bank  {total} {}\n\n", n(0), n(1), n(2), n(3), part = part, total = total)
+    } else {
+        let v = format!("1.{}6", zeros);
+        format!("2024/01/02 exact, one digit more than the declared precision\n  Expenses:A  {v} {}\n  Assets:Bank  -{v} {}\n\n2024/01/03 euros at a price with four decimals\n  Assets:Broker  3 EUR @ 1.1111 {}\n  Assets:Bank  -3.3333 {}\n\n", n(0), n(2), n(1), n(3), v = v)
+    };
+    let fmt_block = format!("commodity {}\n{}\n", G_CANON, fmt_line);
+    let decl_block = format!("commodity {}\n{}\n", G_CANON, all);
+    match G_PLACEMENTS[g.placement].0 {
+        "same-block-after-all-alias-lines" => (format!("{}commodity {}\n{}{}\n{}{}", other_decl, G_CANON, all, fmt_line, open, body), None),
+        "same-block-between-alias-lines-own-alias-above" => (format!("{}commodity {}\n{}{}{}\n{}{}", other_decl, G_CANON, alias_line(own), fmt_line, others, open, body), None),
+        "same-block-above-its-own-alias-line" => (format!("{}commodity {}\n{}{}{}\n{}{}", other_decl, G_CANON, others, fmt_line, alias_line(own), open, body), None),
+        "second-commodity-block" => (format!("{}{}{}{}{}", other_decl, decl_block, fmt_block, open, body), None),
+        "second-commodity-block-after-first-use" => (format!("{}{}{}{}{}", other_decl, decl_block, open, fmt_block, body), None),
+        "format-in-included-file" => (format!("{}{}include fmt.ledger\n\n{}{}", other_decl, decl_block, open, body), Some(fmt_block)),
+        "aliases-in-included-file" => (format!("{}include fmt.ledger\n\n{}{}{}", other_decl, fmt_block, open, body), Some(decl_block)),
+        other => panic!("harness bug: unknown placement {}", other),
+    }
+}
+
+#[derive(Clone, PartialEq, Eq, Debug)]
+struct GApi {
+    balance: Balances,
+    txns: Vec<TxnView>,
+    range_balance: Balances,
+    converted: Result<Balances, String>,
+}
+
+#[derive(Clone, PartialEq, Eq, Debug)]
+struct GObs {
+    api: Result<GApi, String>,
+    cli: Vec<String>,
+}
+
+fn g_observe(g: &GCase, dir: &Path) -> GObs {
+    let (root, inc) = g_render(g);
+    g_observe_texts(root, inc, dir)
+}
+
+fn g_observe_texts(root: String, inc: Option<String>, dir: &Path) -> GObs {
+    use okane_core::report::query::{Conversion, ConversionStrategy};
+    let mut files: Vec<(&str, &str)> = vec![(oka::ROOT, root.as_str())];
+    if let Some(i) = &inc {
+        files.push(("/v/fmt.ledger", i.as_str()));
+    }
+    let api = oka::with_ledger(&files, oka::ROOT, None, |r| {
+        let (l, ctx) = match r {
+            Ok(x) => x,
+            Err(e) => return Err(format!("{}: {}", e.variant, e.rendered.lines().next().unwrap_or(""))),
+        };
+        let txns = oka::txn_views(l);
+        let balance = match l.balance(ctx, &BalanceQuery::default()) {
+            Ok(b) => oka::balance_to_map(&b),
+            Err(e) => return Err(format!("balance query failed: {}", e)),
+        };
+        let q = BalanceQuery { conversion: None, date_range: DateRange { start: Some(oka::date(2024, 1, 1)), end: None } };
+        let range_balance = match l.balance(ctx, &q) {
+            Ok(b) => oka::balance_to_map(&b),
+            Err(e) => return Err(format!("range balance query failed: {}", e)),
+        };
+        let converted = match ctx.commodity(G_CANON) {
+            None => Err(format!("commodity {} not found", G_CANON)),
+            Some(target) => {
+                let q = BalanceQuery { conversion: Some(Conversion { strategy: ConversionStrategy::UpToDate { now: oka::date(2024, 2, 1) }, target }), date_range: DateRange::default() };
+                match l.balance(ctx, &q) {
+                    Ok(b) => Ok(oka::balance_to_map(&b)),
+                    Err(e) => Err(e.to_string()),
+                }
+            }
+        };
+        Ok(GApi { balance, txns, range_balance, converted })
+    });
+    let main = dir.join("main.ledger");
+    std::fs::write(&main, &root).expect("write scratch ledger");
+    let incp = dir.join("fmt.ledger");
+    match &inc {
+        Some(i) => std::fs::write(&incp, i).expect("write scratch include"),
+        None => {
+            let _ = std::fs::remove_file(&incp);
+        }
+    }
+    let pstr = main.to_string_lossy().to_string();
+    let dstr = dir.to_string_lossy().to_string();
+    let cli = G_COMMANDS
+        .iter()
+        .map(|(_, args)| {
+            let mut a = vec!["okane".to_string()];
+            a.extend(args.iter().map(|x| if *x == "{}" { pstr.clone() } else { x.to_string() }));
+            run_cli(&a).replace(&pstr, "<file>").replace(&dstr, "<dir>")
+        })
+        .collect();
+    GObs { api, cli }
+}
+
+fn g_shows_alias_api(a: &GApi) -> bool {
+    let bad = |b: &Balances| b.values().any(|m| m.keys().any(|k| G_ALIASES.contains(&k.as_str()) || k == "\u{a5}"));
+    bad(&a.balance) || bad(&a.range_balance) || a.converted.as_ref().map(bad).unwrap_or(false) || a.txns.iter().flat_map(|t| &t.postings).any(|p| p.amount.keys().any(|k| G_ALIASES.contains(&k.as_str())))
+}
+
+fn g_shows_alias_text(out: &str) -> bool {
+    out.strip_prefix("EXIT 0\n").map(|b| G_ALIASES.iter().any(|a| b.contains(a))).unwrap_or(false)
+}
+
+/// (kind, detail) of the first hard difference between the reference (canonical spelling) and this spelling.
+fn g_diff(canon: &GObs, got: &GObs) -> Option<(String, String)> {
+    let ca = match &canon.api {
+        Ok(a) => a,
+        Err(e) => {
+            // the canonical spelling is rejected (only possible where acceptance is not required): the alias spelling must be rejected too
+            return match &got.api {
+                Err(_) => None,
+                Ok(_) => Some(("rejected-ledger-accepted".into(), format!("with the canonical name in the format line the ledger is rejected ({}); with this spelling it is accepted", e))),
+            };
+        }
+    };
+    match &got.api {
+        Err(e) => return Some(("accepted-ledger-rejected".into(), format!("with the canonical name in the format line the ledger is accepted; with this spelling it is rejected: {}", e))),
+        Ok(ga) => {
+            let shows = if g_shows_alias_api(ga) { "alias-name-shown" } else { "values-differ" };
+            if ga.balance != ca.balance || ga.txns != ca.txns {
+                return Some((shows.into(), format!("Ledger::balance / transactions\n canonical spelling: {:?}\n this spelling:      {:?}", show_bal(&ca.balance), show_bal(&ga.balance))));
+            }
+            if ga.range_balance != ca.range_balance {
+                return Some((shows.into(), format!("Ledger::balance from 2024-01-01 (rounded to the declared precision)\n canonical spelling: {:?}\n this spelling:      {:?}", show_bal(&ca.range_balance), show_bal(&ga.range_balance))));
+            }
+            if ga.converted != ca.converted {
+                return Some((shows.into(), format!("Ledger::balance converted to USD, up to date\n canonical spelling: {:?}\n this spelling:      {:?}", ca.converted.as_ref().map(show_bal), ga.converted.as_ref().map(show_bal))));
+            }
+        }
+    }
+    for (i, (label, args)) in G_COMMANDS.iter().enumerate() {
+        let (a, b) = (&canon.cli[i], &got.cli[i]);
+        if a == b {
+            continue;
+        }
+        if label.starts_with("balance") {
+            if let (Some(x), Some(y)) = (parse_balance_report(a), parse_balance_report(b)) {
+                if x == y {
+                    continue;
+                }
+            }
+        }
+        let kind = if g_shows_alias_text(b) {
+            "alias-name-shown"
+        } else if a.starts_with("EXIT 0") != b.starts_with("EXIT 0") {
+            "fails"
+        } else {
+            "values-differ"
+        };
+        return Some((format!("cli-{}-{}", label, kind), format!("okane {}\n--- canonical spelling ---\n{}\n--- this spelling ---\n{}", args.join(" ").replace("{}", "<file>"), a, b)));
+    }
+    None
+}
+
+/// Hand-checked values of the canonical form. Body 0 (`balance`, not rounded): A = B = C = 1 + 10^-(p+1), Bank = 100 - 3.
+/// Body 1 (`balance -X USD`, rounded to the declared precision p; no value is a tie):
+///   A = 1 + 6*10^-(p+1);  Bank = 100 - A - 3.3333;  Broker = 3 EUR = 3.3333 USD
+///   p=0: 1.6 -> 2, 95.0667 -> 95, 3;  p=1: 1.06 -> 1.1, 95.6067 -> 95.6, 3.3;  p=2: 1.006 -> 1.01, 95.6607 -> 95.66, 3.33;
+///   p=3: 1.0006 -> 1.001, 95.6661 -> 95.666, 3.333.
+fn g_pinned(body: usize, p: u32) -> (usize, Vec<(String, QMap)>) {
+    let one = |acc: &str, v: &str| -> (String, QMap) {
+        let mut m = QMap::new();
+        m.insert(G_CANON.to_string(), Q::parse(v));
+        (acc.to_string(), m)
+    };
+    if body == 0 {
+        let part = ["1.1", "1.01", "1.001", "1.0001"][p as usize];
+        (0, vec![one("Assets:Bank", "97"), one("Equity", "-100"), one("Expenses:A", part), one("Expenses:B", part), one("Expenses:C", part)])
+    } else {
+        let (a, bank, broker) = [("2", "95", "3"), ("1.1", "95.6", "3.3"), ("1.01", "95.66", "3.33"), ("1.001", "95.666", "3.333")][p as usize];
+        (3, vec![one("Assets:Bank", bank), one("Assets:Broker", broker), one("Equity", "-100"), one("Expenses:A", a)])
+    }
+}
+
+/// Health of the reference (canonical spelling everywhere). Err(why) = unhealthy; Ok(None) = rejected where acceptance is
+/// not required; Ok(Some(load_bearing)) = healthy, and whether removing the format line changes the observation.
+fn g_reference_health(g: &GCase, canon: &GObs, dir: &Path) -> Result<Option<bool>, String> {
+    let a = match &canon.api {
+        Ok(a) => a,
+        Err(e) => {
+            return if G_PLACEMENTS[g.placement].1 { Err(format!("the ledger with the canonical name in the format line is rejected: {}", e)) } else { Ok(None) };
+        }
+    };
+    if g_shows_alias_api(a) {
+        return Err("the all-canonical form reports an alias name".into());
+    }
+    if let Err(e) = &a.converted {
+        return Err(format!("conversion to USD fails on the all-canonical form: {}", e));
+    }
+    for (i, (label, _)) in G_COMMANDS.iter().enumerate() {
+        if !canon.cli[i].starts_with("EXIT 0\n") {
+            return Err(format!("`okane {}` fails on the all-canonical form:\n{}", label, canon.cli[i]));
+        }
+        if g_shows_alias_text(&canon.cli[i]) {
+            return Err(format!("`okane {}` on the all-canonical form prints an alias:\n{}", label, canon.cli[i]));
+        }
+    }
+    let (cmd, want) = g_pinned(g.body, G_STYLES[g.style].1);
+    let got = parse_balance_report(&canon.cli[cmd]).map(|v| v.into_iter().map(|(a, m)| (a, m.into_iter().filter(|(_, q)| !q.is_zero()).collect::<QMap>())).collect::<Vec<_>>());
+    if got.as_ref() != Some(&want) {
+        return Err(format!("`okane {}` on the all-canonical form differs from the hand-checked values\n--- expected ---\n{:?}\n--- observed ---\n{}", G_COMMANDS[cmd].0, want, canon.cli[cmd]));
+    }
+    // is the format line load-bearing? (the same files without the format line must be observably different)
+    let strip = |t: String| -> String { t.split_inclusive('\n').filter(|l| !l.starts_with("  format ")).collect() };
+    let (root, inc) = g_render(g);
+    let without = g_observe_texts(strip(root), inc.map(strip), dir);
+    Ok(Some(without != *canon))
+}
+
+fn g_describe(g: &GCase) -> String {
+    let (root, inc) = g_render(g);
+    format!(
+        "[part G, format line] placement: {}; format {:?} (precision {}); body: {}; {}; commodity of the format amount: {:?} ({})\ncompared with the same ledger with `{}` in the format line through Ledger::balance / transactions / ranged balance / balance converted to USD and: {}\n--- main.ledger ---\n{}{}",
+        G_PLACEMENTS[g.placement].0,
+        G_STYLES[g.style].0,
+        G_STYLES[g.style].1,
+        G_BODIES[g.body],
+        G_LEDGER_SPELLINGS[g.lsp],
+        g.spell.text(),
+        g.spell.label(),
+        G_CANON,
+        G_COMMANDS.iter().map(|(_, a)| format!("okane {}", a.join(" ").replace("{}", "<file>"))).collect::<Vec<_>>().join(" | "),
+        root,
+        inc.map(|i| format!("--- fmt.ledger ---\n{}", i)).unwrap_or_default()
+    )
+}
+
+/// Is the alias written in the format line declared above that line?
+fn g_alias_declared_above(g: &GCase) -> bool {
+    G_PLACEMENTS[g.placement].0 != "same-block-above-its-own-alias-line"
+}
+
+fn g_judge(g: &GCase, dir: &Path) -> Outcome {
+    let reference = GCase { lsp: 0, spell: GSpell::Canonical, ..*g };
+    let canon = g_observe(&reference, dir);
+    let health = match g_reference_health(&reference, &canon, dir) {
+        Ok(h) => h,
+        Err(why) => return Outcome::violation(format!("transparency/format-line/canonical-form-unhealthy/{}", G_BODIES[g.body]), why),
+    };
+    if *g == reference {
+        return match health {
+            Some(true) => Outcome::pass(format!("format-line/canonical-form-as-pinned/{}/format-line-is-load-bearing", G_BODIES[g.body])),
+            Some(false) => Outcome::dont_care(format!("format-line/canonical-form-as-pinned/{}/format-line-has-no-effect", G_BODIES[g.body])),
+            None => Outcome::dont_care("format-line/not-judged/repeated-commodity-block-rejected"),
+        };
+    }
+    let got = g_observe(g, dir);
+    let d = g_diff(&canon, &got);
+    let judged = match g.spell {
+        GSpell::Canonical => true,
+        GSpell::Alias(_) => g_alias_declared_above(g),
+        _ => false,
+    };
+    if !judged {
+        let why = if matches!(g.spell, GSpell::Alias(_)) { "alias-declared-below-the-format-line" } else { g.spell.label() };
+        return Outcome::dont_care(format!("format-line/not-judged/{}/{}", why, if d.is_none() { "same-as-canonical-name" } else { "differs-from-canonical-name" }));
+    }
+    match d {
+        None => Outcome::pass(format!("format-line/transparent/{}/{}", G_BODIES[g.body], g.spell.label())),
+        Some((kind, detail)) => {
+            let culprit = match g.spell {
+                GSpell::Alias(i) => {
+                    let fails = |pl: usize, al: usize| -> bool {
+                        let x = GCase { placement: pl, spell: GSpell::Alias(al), ..*g };
+                        let r = GCase { lsp: 0, spell: GSpell::Canonical, ..x };
+                        g_diff(&g_observe(&r, dir), &g_observe(&x, dir)).is_some()
+                    };
+                    let every_alias = (0..3).all(|al| al == i || fails(g.placement, al));
+                    let every_placement = (0..G_PLACEMENTS.len()).filter(|pl| G_PLACEMENTS[*pl].0 != "same-block-above-its-own-alias-line").all(|pl| pl == g.placement || fails(pl, i));
+                    format!("{}@{}", if every_alias { "commodity-alias".to_string() } else { format!("commodity-alias({})", g_alias_shape(G_ALIASES[i])) }, if every_placement { "any-placement" } else { G_PLACEMENTS[g.placement].0 })
+                }
+                _ => "ledger-aliases-only".to_string(),
+            };
+            Outcome::violation(format!("transparency/format-line/{}/{}", kind, culprit), format!("placement {}, format {:?}, body {}, {}, format amount written {:?}\n{}", G_PLACEMENTS[g.placement].0, G_STYLES[g.style].0, G_BODIES[g.body], G_LEDGER_SPELLINGS[g.lsp], g.spell.text(), detail))
+        }
+    }
+}
+
+fn part_g(ctx: &mut Ctx, dir: &Path) -> u64 {
+    let mut n = 0u64;
+    let gdir = dir.join(format!("g-{}", ctx.shard));
+    std::fs::create_dir_all(&gdir).expect("scratch dir for part G");
+    for placement in 0..G_PLACEMENTS.len() {
+        for style in 0..G_STYLES.len() {
+            for body in 0..G_BODIES.len() {
+                for lsp in 0..G_LEDGER_SPELLINGS.len() {
+                    for spell in G_SPELLINGS {
+                        n += 1;
+                        if !ctx.next_is_mine() {
+                            ctx.skip_cases(1);
+                            continue;
+                        }
+                        let g = GCase { placement, style, body, lsp, spell };
+                        ctx.case(|| g_describe(&g), || g_judge(&g, &gdir));
+                    }
+                }
+            }
+        }
+    }
+    ctx.fact("G_format_line_cases", n);
+    ctx.fact("G_placements_x_styles_x_bodies_x_ledger_spellings_x_format_spellings", "7 x 5 x 2 x 2 x 8");
+    n
+}
+
 fn run(ctx: &mut Ctx) {
     let dir: PathBuf = oka::scratch_dir("c12");
     let path = dir.join(format!("case-{}.ledger", ctx.shard));
@@ -2055,9 +2489,10 @@ fn run(ctx: &mut Ctx) {
     let d_forms = part_d(ctx, &path);
     let e_cases = part_e(ctx, &path);
     let f_cases = part_f(ctx, &path);
+    let g_cases = part_g(ctx, &dir);
     let b_states = part_b(ctx, &path);
     ctx.fact("F_alias_query_cases", f_cases);
-    ctx.fact("states", a_states + b_states + c_states + d_forms + e_cases + f_cases);
+    ctx.fact("states", a_states + b_states + c_states + d_forms + e_cases + f_cases + g_cases);
     ctx.fact("C_distinct_ledger_and_price_db_pairs", c_states);
     ctx.fact("A_distinct_ledgers", a_states);
     ctx.fact("B_states_plus_histories", b_states);
